@@ -25,9 +25,27 @@ A_INV = {
     # A5: every edge out of a closed cell ends in a discovered cell
     "A5.closed-edges": "forall(lambda i, j, a, b: implies((i, j) in closed_vtx and edge(self, (i, j), (a, b)), (a, b) in open_vtx or (a, b) in closed_vtx), None, None, None, None)",
     # A6: scores exist where they are read (no KeyError)
-    "A6.scores": "forall(lambda i, j: implies((i, j) in open_vtx or (i, j) in closed_vtx, (i, j) in g_score), None, None)"
-    " and forall(lambda i, j: implies((i, j) in open_vtx, (i, j) in f_score), None, None)",
+    "A6.g-scores": "forall(lambda i, j: implies((i, j) in open_vtx or (i, j) in closed_vtx, (i, j) in g_score), None, None)",
+    "A6.f-scores": "forall(lambda i, j: implies((i, j) in open_vtx, (i, j) in f_score), None, None)",
 }
+
+# ---- optimality (C02 "exactly the minimum possible number of steps"): the classical A* argument with a consistent heuristic.
+# G(v) := g_score[v] - g_score[c_start] is the length of the path found to v (the code stores the heuristic, not 0, at the start).
+_H = lambda v: f"(abs({v}[0] - c_end[0]) + abs({v}[1] - c_end[1]))"  # noqa: E731
+O_INV = {
+    # O1: a found path is never shorter than the distance
+    "O1.g>=dist": "forall(lambda i, j: implies((i, j) in open_vtx or (i, j) in closed_vtx, g_score[(i, j)] - g_score[c_start] >= dist(self, c_start, (i, j))), None, None)",
+    # O2: closed cells carry their true distance
+    "O2.closed-exact": "forall(lambda i, j: implies((i, j) in closed_vtx, g_score[(i, j)] - g_score[c_start] == dist(self, c_start, (i, j))), None, None)",
+    # O5: every edge out of a closed cell has been relaxed
+    "O5.relaxed": "forall(lambda i, j, a, b: implies((i, j) in closed_vtx and edge(self, (i, j), (a, b)), g_score[(a, b)] <= g_score[(i, j)] + 1), None, None, None, None)",
+    # F: the priority of an open cell is g + manhattan distance to the goal (the start's own entry is 0.0 and is used only in the first iteration)
+    "F.priority": "forall(lambda i, j: implies((i, j) in open_vtx and not (i == c_start[0] and j == c_start[1]),"
+    " f_score[(i, j)] == g_score[(i, j)] + (abs(i - c_end[0]) + abs(j - c_end[1]))), None, None)",
+    # S1: the start is open only in the first iteration
+    "S1.start-first": "implies(c_start in open_vtx, forall(lambda i, j: (i, j) not in closed_vtx and implies((i, j) in open_vtx, i == c_start[0] and j == c_start[1]), None, None))",
+}
+A_INV.update(O_INV)
 
 STATE = dict(
     open_vtx=T.SetT(2),
@@ -44,6 +62,25 @@ INNER["A5.closed-edges"] = (
 )
 INNER["A5.current-so-far"] = "all_cands(_cands, _m, lambda g, v: implies(g, (v[0], v[1]) in open_vtx or (v[0], v[1]) in closed_vtx))"
 INNER["A1.current-closed"] = "c_current in closed_vtx and c_current not in open_vtx"
+INNER["O5.relaxed"] = (
+    "forall(lambda i, j, a, b: implies((i, j) in closed_vtx and not (i == c_current[0] and j == c_current[1]) and edge(self, (i, j), (a, b)),"
+    " g_score[(a, b)] <= g_score[(i, j)] + 1), None, None, None, None)"
+)
+INNER["O5.current-so-far"] = "all_cands(_cands, _m, lambda g, v: implies(g, g_score[(v[0], v[1])] <= g_score[c_current] + 1))"
+INNER["S1.start-first"] = "c_start in closed_vtx"
+
+
+# the soundness/completeness invariants (A*, R*) do not need the optimality facts: prove them from the A-family alone first
+_A_FOCUS = ["inv:A*", "inv:R*", "axiom:reach"]
+FOCUS0 = {lab: _A_FOCUS for lab in A_INV if lab.startswith("A") and not lab.startswith("A6")}
+FOCUS2 = {lab: _A_FOCUS for lab in INNER if lab.startswith("A") and not lab.startswith("A6")}
+# the key step (the cell just picked carries its true distance) uses the cut lemma, the relaxed edges and the priorities only
+FOCUS2["O2.closed-exact"] = ["inv:O*", "inv:F*", "inv:S1*", "inv:A1*", "inv:A4*", "inv:A5*", "lemma-after", "axiom:*"]
+FOCUS2["A6.f-scores"] = ["inv:A6*", "inv:A1*"]
+FOCUS2["A6.g-scores"] = ["inv:A6*", "inv:A1*"]
+FOCUS2["O1.g>=dist"] = ["inv:O1*", "inv:O2*", "inv:A1*", "inv:A4*", "inv:A6*", "axiom:*"]
+FOCUS2["O5.relaxed"] = ["inv:O*", "inv:A1*", "inv:A4*", "inv:A5*", "axiom:*"]
+FOCUS2["O5.current-so-far"] = ["inv:O5.current-so-far", "inv:O2*", "inv:A4*", "inv:A1*", "axiom:*"]
 
 
 @contract(F, "LatticeMaze.find_shortest_path")
@@ -59,11 +96,15 @@ class find_shortest_path:
         "C02.simple": "distinct_rows(result)",
         "C02.self-query": "implies(c_start[0] == c_end[0] and c_start[1] == c_end[1], nrows(result) == 1)",
         "C02.returns-only-if-connected": "reach(self, c_start, c_end)",
+        # exactly the minimum possible number of steps
+        "C02.optimal": "nrows(result) - 1 == dist(self, c_start, c_end)",
     }
+    # right after the cell with the least priority is picked: a shortest path to it leaves the closed set through a tight edge
+    lemma_after = {"c_current: CoordTup = min(": ["astar_cut(self, c_start, c_end, lambda v: v in closed_vtx, c_current)"]}
     raises = {"ValueError": "not reach(self, c_start, c_end)"}
     raise_lemmas = ["reach_induction(self, c_start, lambda v: v in final(closed_vtx))"]
     loops = {
-        0: Loop(head="while open_vtx", havoc=STATE, inv=A_INV),
+        0: Loop(head="while open_vtx", havoc=STATE, inv=A_INV, focus=FOCUS0),
         1: Loop(
             head="while p_current in source",
             havoc=dict(path=T.ListT(T.CoordTup), p_current=T.CoordTup),
@@ -75,7 +116,7 @@ class find_shortest_path:
                 "R.g-decreases": "forall(lambda k: g_score[(path[k][0], path[k][1])] == g_score[c_end] - k, (0, len(path)))",
             },
         ),
-        2: Loop(head="for _np_neighbor in self.get_coord_neighbors(c_current)", cut=True, havoc=STATE, inv=INNER),
+        2: Loop(head="for _np_neighbor in self.get_coord_neighbors(c_current)", cut=True, havoc=STATE, inv=INNER, focus=FOCUS2),
     }
     result = T.ListT(T.CoordTup)
     props = ["C02", "C03"]
